@@ -60,6 +60,9 @@ def wrong_values(p, name):
         out = [([1], "ParameterNotValid"), ({"a": "b"}, "ParameterNotValid")]
         if p.must_exist:
             out.append(("missing_file.csv", "PathDoesNotExist"))
+            # names the file system itself refuses (longer than any file name may be; a directory component that is a file): they do not exist
+            out.append(("n" * 300 + ".csv", "PathDoesNotExist"))
+            out.append(("in.csv/inside.csv", "PathDoesNotExist"))
         return out
     if cls is P.ResultParameter:
         out = [(Name("NoSuch"), "ResultDoesNotExist"), (5, "ParameterNotValid"), ([Name("Rd")], "ParameterNotValid")]
@@ -240,6 +243,16 @@ def run(ctx):
                 sc = Scenario(cmds, wd=tmp, libs=LIBS)
                 idx = len(cmds) - (1 if first else 2)
                 scs.append((sc, (err, sc.lines[idx][1][argi]), "rejected-with-writer"))
+    # commands derived from a fuzzy / non-fuzzy command (plug-ins built on the library's commands) are fuzzy / non-fuzzy like their base
+    # (a derived command does not inherit `inputs` - the metaclass gives every class its own table - so the derived ones only produce here)
+    for prod, pcls, good, bad, err in (("Fz2", "F2", [("F", "FData"), ("FuzzyNot", "InFieldName"), ("Copy", "InFieldName")], [("D", "Data"), ("Normalize", "InFieldName")], "ResultIsFuzzy"),
+                                      ("Dd2", "D2", [("D", "Data"), ("Normalize", "InFieldName"), ("Copy", "InFieldName")], [("F", "FData"), ("FuzzyNot", "InFieldName")], "ResultNotFuzzy")):
+        for cname, arg in good:
+            sc = Scenario(producers(env) + [(prod, pcls, []), ("T", cname, [(arg, Name(prod))])], wd=tmp, libs=LIBS)
+            scs.append((sc, None, "derived-command:%s->%s" % (pcls, cname)))
+        for cname, arg in bad:
+            sc = Scenario(producers(env) + [(prod, pcls, []), ("T", cname, [(arg, Name(prod))])], wd=tmp, libs=LIBS)
+            scs.append((sc, (err, sc.lines[-1][1][0]), "derived-command:%s->%s" % (pcls, cname)))
     # models extended through add_command after a successful run: the additions are validated like everything else, before anything executes
     ext = []
     for _ in range(ctx.budget(10, 300)):
